@@ -22,21 +22,44 @@ acquire + copy + release), at a tracing level the reported byte total is the sum
 requested sizes of the live allocations and the reported count is their number; at level `none`
 both are 0.  Calls that violate an API precondition / the allocator contract are not made
 (`Ret.rejected`), so no hypothesis on `ops` is needed. -/
-theorem c17_seq (lvl : Level) (frames : Nat) (hr hc : Bool) (ops : List Op) :
-    let s := (Seq.new lvl frames { blocks := [], hasRealloc := hr, hasCalloc := hc }).run ops
-    s.tr.bytes = (if lvl = .none then 0 else liveBytes s.par % W) ∧
-    s.tr.count = (if lvl = .none then 0 else s.par.blocks.length) :=
-  seq_main lvl frames _ rfl ops
+theorem c17_seq (lvl : Level) (frames : Nat) (hr hc bt : Bool) (ops : List Op) :
+    let s := (Seq.new lvl frames { blocks := [], hasRealloc := hr, hasCalloc := hc } bt).run ops
+    s.tr.bytes = (if effLevel lvl bt = .none then 0 else liveBytes s.par % W) ∧
+    s.tr.count = (if effLevel lvl bt = .none then 0 else s.par.blocks.length) :=
+  seq_main lvl frames _ bt rfl ops
+
+/-- **Platform configuration.**  The level the tracer runs at (`s_alloc_tracer_init`, with the clamp
+*generated from memtrace.c* on every check): the requested level when `aws_backtrace()` works on the
+platform, otherwise `min(requested, BYTES)` — in particular a tracer requested as `NONE` stays off on
+every platform.  The captured stack depth is always within 1..128 (default 8 for 0). -/
+theorem c17_init_level :
+    (∀ lvl frames bt, (Tracer.new lvl frames bt).level = effLevel lvl bt) ∧
+    (∀ lvl, effLevel lvl true = lvl) ∧
+    effLevel .none false = .none ∧ effLevel .bytes false = .bytes ∧ effLevel .stacks false = .bytes ∧
+    (∀ f, 1 ≤ AwsVerif.Gen.MemTraceInit.framesClamp f ∧ AwsVerif.Gen.MemTraceInit.framesClamp f ≤ 128 ∧
+          (1 ≤ f → f ≤ 128 → AwsVerif.Gen.MemTraceInit.framesClamp f = f)) := by
+  refine ⟨fun _ _ _ => rfl, fun _ => rfl, by decide, by decide, by decide, fun f => ?_⟩
+  simp only [AwsVerif.Gen.MemTraceInit.framesClamp]
+  refine ⟨?_, ?_, fun h1 h2 => ?_⟩ <;> split <;> split <;> omega
+
+/-- "off reports zero": requested `NONE` ⇒ 0 / 0 after every history, on every platform and configuration -/
+theorem c17_off_reports_zero (frames : Nat) (hr hc bt : Bool) (ops : List Op) :
+    let s := (Seq.new .none frames { blocks := [], hasRealloc := hr, hasCalloc := hc } bt).run ops
+    s.tr.bytes = 0 ∧ s.tr.count = 0 := by
+  intro s
+  have := c17_seq .none frames hr hc bt ops
+  have he : effLevel .none bt = .none := by cases bt <;> decide
+  simpa [he] using this
 
 /-- both are 0 once everything is released (any level, any configuration) -/
-theorem c17_seq_all_released (lvl : Level) (frames : Nat) (hr hc : Bool) (ops : List Op) :
-    let s := (Seq.new lvl frames { blocks := [], hasRealloc := hr, hasCalloc := hc }).run ops
+theorem c17_seq_all_released (lvl : Level) (frames : Nat) (hr hc bt : Bool) (ops : List Op) :
+    let s := (Seq.new lvl frames { blocks := [], hasRealloc := hr, hasCalloc := hc } bt).run ops
     s.par.blocks = [] → s.tr.bytes = 0 ∧ s.tr.count = 0 := by
   intro s h
-  have := c17_seq lvl frames hr hc ops
+  have := c17_seq lvl frames hr hc bt ops
   simp only at this
   rw [this.1, this.2]
-  by_cases hn : lvl = .none
+  by_cases hn : effLevel lvl bt = .none
   · simp [hn]
   · simp [hn, s, h, liveBytes, W]
 
@@ -46,13 +69,13 @@ lets the `i`-th call in flight perform its next action), at every reachable stat
 `allocated + Σ(sizes subtracted for entries still in the table) ≡ Σ sizes(table) + Σ(sizes added
 for blocks not yet in the table)  (mod 2^64)`, and at every quiescent state the sequential
 statement holds for the client's live set. -/
-theorem c17_conc (lvl : Level) (hl : lvl ≠ .none) (frames : Nat) (hr hc : Bool) (acts : List Act) :
-    let s := run (Sys.init lvl frames hr hc) acts
+theorem c17_conc (lvl : Level) (frames : Nat) (hr hc bt : Bool) (hl : effLevel lvl bt ≠ .none) (acts : List Act) :
+    let s := run (Sys.init lvl frames hr hc bt) acts
     (s.sh.tr.allocated + (s.pool.map subbedOf).sum) % W = (s.sh.tr.allocs.bytes + (s.pool.map addedOf).sum) % W ∧
     (s.quiescent →
       s.sh.tr.bytes = (s.sh.owned.map (·.2)).sum % W ∧ s.sh.tr.count = s.sh.owned.length) := by
   intro s
-  have hi : SysInv lvl s := run_inv_sys hl (init_inv lvl frames hr hc) acts
+  have hi : SysInv (effLevel lvl bt) s := run_inv_sys hl (init_inv lvl frames hr hc bt) acts
   refine ⟨?_, fun hq => ?_⟩
   · have := hi.inv.acct
     rwa [sumBy_attr_added, sumBy_attr_subbed] at this
@@ -62,21 +85,23 @@ theorem c17_conc (lvl : Level) (hl : lvl ≠ .none) (frames : Nat) (hr hc : Bool
     exact this
 
 /-- at level `none` the tracer reports 0 / 0 in every state of every schedule -/
-theorem c17_conc_level_none (frames : Nat) (hr hc : Bool) (acts : List Act) :
-    (run (Sys.init .none frames hr hc) acts).sh.tr.bytes = 0 ∧ (run (Sys.init .none frames hr hc) acts).sh.tr.count = 0 := by
-  have : (run (Sys.init .none frames hr hc) acts).sh.tr.level = .none := by
-    rw [run_level_sys]; simp [Sys.init, Tracer.new]
+theorem c17_conc_level_none (frames : Nat) (hr hc bt : Bool) (acts : List Act) :
+    (run (Sys.init .none frames hr hc bt) acts).sh.tr.bytes = 0 ∧ (run (Sys.init .none frames hr hc bt) acts).sh.tr.count = 0 := by
+  have : (run (Sys.init .none frames hr hc bt) acts).sh.tr.level = .none := by
+    rw [run_level_sys]
+    show effLevel .none bt = .none
+    cases bt <;> decide
   simp [Tracer.bytes, Tracer.count, this]
 
 /-- mutual structure of the table under every schedule: the table's entries are exactly the client's
 blocks plus the entries accounted for by calls in flight, no address twice (used by `c17_conc`;
 stated separately because it is what makes `hash_table_put` never overwrite a live entry) -/
-theorem c17_conc_table (lvl : Level) (hl : lvl ≠ .none) (frames : Nat) (hr hc : Bool) (acts : List Act) :
-    let s := run (Sys.init lvl frames hr hc) acts
+theorem c17_conc_table (lvl : Level) (frames : Nat) (hr hc bt : Bool) (hl : effLevel lvl bt ≠ .none) (acts : List Act) :
+    let s := run (Sys.init lvl frames hr hc bt) acts
     (s.sh.tr.allocs.map (·.1)).Nodup ∧
     (∀ e ∈ s.sh.owned, ∃ i, s.sh.tr.allocs.lookup e.1 = some i ∧ i.size = e.2) := by
   intro s
-  have hi : SysInv lvl s := run_inv_sys hl (init_inv lvl frames hr hc) acts
+  have hi : SysInv (effLevel lvl bt) s := run_inv_sys hl (init_inv lvl frames hr hc bt) acts
   exact ⟨hi.inv.keysNodup, hi.inv.ownedFound⟩
 
 /-- **Transparency.**  Under the same history the wrapped allocator ends in the same state —
